@@ -5,16 +5,21 @@ security contexts arrive on one session (src/coap_oscore.c):
 
   * `coap_oscore_decrypt_pdu` for a request: `oscore_find_context()` gives `rcp_ctx` (Model/OscoreCtx.lean; here
     its position in the store); `session->recipient_ctx = rcp_ctx` ("to be used for encryption of returned response
-    later" — it is NOT: see below); after the replay check, AAD and nonce are computed and — still before the AEAD
-    runs — "Set up an association for use in the response": `oscore_find_association(session, &pdu_token)`; found:
+    later" — it is NOT: see below); after the replay check, AAD and nonce are computed and the AEAD runs; a request
+    that does not verify (or whose plaintext does not parse) leaves through `error:` with the associations
+    untouched.  Only then (fix 9631fdc: before, this block sat in front of the AEAD) "Set up an association for use in
+    the response, now that the request is verified": `oscore_find_association(session, &pdu_token)`; found:
     `nonce`, `partial_iv`, `aad` replaced and `association->recipient_ctx = rcp_ctx` (`is_observe` untouched); not
     found: `oscore_new_association(session, NULL, &pdu_token, rcp_ctx, aad, nonce, partial_iv, 0)`.  When the
-    plaintext verifies and carries an Observe option: `association->is_observe = 1`.
+    plaintext carries an Observe option (any value): `association->is_observe = 1` (it is never reset).
   * `coap_oscore_new_pdu_encrypted_lkd` for a response (RFC 8613 8.3 step 1): `association =
     oscore_find_association(session, &pdu_token)` (none: error); `rcp_ctx = association->recipient_ctx; osc_ctx =
     rcp_ctx->osc_ctx; snd_ctx = osc_ctx->sender_context` — Sender Key, Sender ID, Common IV and Sender Sequence Number
     of the response are those of the ASSOCIATION's context; `session->recipient_ctx` is only read for requests.
-    After the response has been built: `if (association->is_observe == 0) oscore_delete_association()`.
+    `if (association->is_observe && !doing_observe && send_partial_iv == OSCORE_SEND_NO_IV) send_partial_iv =
+    OSCORE_SEND_PARTIAL_IV;` (fix ae365ed), then the Partial IV / fresh nonce / `oscore_increment_sender_seq` branch
+    is taken `if (coap_request || doing_observe || send_partial_iv == OSCORE_SEND_PARTIAL_IV)`, else `association->nonce`
+    is used.  After the response has been built: `if (association->is_observe == 0) oscore_delete_association()`.
 
 A recipient context is represented by its position (context, recipient in its chain) in the store.  Core Lean only.
 -/
@@ -40,18 +45,28 @@ structure Srv where
 def findSAssoc (as : List SAssoc) (t : Bytes) : Option SAssoc := List.find? (fun a => a.token = t) as
 
 /-- `coap_oscore_decrypt_pdu` for a request with token `t` for which `oscore_find_context` returned `pos` and the
-replay check passed; `verified` = the AEAD accepted and the plaintext parsed, `observe` = the plaintext carries Observe -/
+replay check passed; `verified` = the AEAD accepted and the plaintext parsed, `observe` = the plaintext carries Observe.
+`session->recipient_ctx` is assigned before the AEAD runs, the association is touched after it (fix 9631fdc). -/
 def srvDecrypt (s : Srv) (t : Bytes) (pos : RPos) (aad nonce piv : Bytes) (verified observe : Bool) : Srv :=
+  if !verified then ⟨some pos, s.as⟩ else
   let as1 :=
     match findSAssoc s.as t with
     | some _ => s.as.map fun a => if a.token = t then { a with nonce := nonce, piv := piv, aad := aad, rcp := pos } else a
     | none => ⟨t, pos, aad, nonce, piv, false⟩ :: s.as
-  let as2 := if verified && observe then as1.map fun a => if a.token = t then { a with isObserve := true } else a else as1
+  let as2 := if observe then as1.map fun a => if a.token = t then { a with isObserve := true } else a else as1
   ⟨some pos, as2⟩
 
 /-- RFC 8613 8.3 step 1 in `coap_oscore_new_pdu_encrypted_lkd`: the recipient context (hence the Sender Context) a response
 with token `t` is protected with — `association->recipient_ctx`; `none`: no association, the function fails -/
 def srvResponseCtx (s : Srv) (t : Bytes) : Option RPos := (findSAssoc s.as t).map (·.rcp)
+
+/-- does `coap_oscore_new_pdu_encrypted_lkd` take the Partial IV / fresh nonce / `oscore_increment_sender_seq` branch for
+a response with token `t`?  `doingObserve`: the response carries Observe; `ask`: `send_partial_iv == OSCORE_SEND_PARTIAL_IV`
+on entry.  `none`: no association, the function fails.  (fix ae365ed: `association->is_observe` forces it) -/
+def srvOwnPiv (s : Srv) (t : Bytes) (doingObserve ask : Bool) : Option Bool :=
+  (findSAssoc s.as t).map fun a =>
+    let ask' := if a.isObserve && !doingObserve && !ask then true else ask
+    doingObserve || ask'
 
 /-- the association part of protecting a response with token `t` (the response could be built) -/
 def srvProtect (s : Srv) (t : Bytes) : Srv :=
@@ -70,9 +85,9 @@ def srvStep (s : Srv) : SrvStep → Srv
 
 def srvRun (s : Srv) (steps : List SrvStep) : Srv := steps.foldl srvStep s
 
-/-- the recipient context of the latest `decrypt` step per token — a function of the `decrypt` steps alone -/
+/-- the recipient context of the latest VERIFIED `decrypt` step per token — a function of the `decrypt` steps alone -/
 def srvTrack (acc : Bytes → Option RPos) : SrvStep → Bytes → Option RPos
-  | .decrypt t pos _ _ _ _ _ => fun t' => if t' = t then some pos else acc t'
+  | .decrypt t pos _ _ _ v _ => if v then fun t' => if t' = t then some pos else acc t' else acc
   | .protect _ => acc
 
 def srvLatest (steps : List SrvStep) : Bytes → Option RPos := steps.foldl srvTrack (fun _ => none)
